@@ -654,6 +654,10 @@ def strict_fp_state(ctx, G):
         except Exception as e:
             ctx.issue("violation", f"FusionART.join_channel_data:{exc_enum(e)}", f"skip {Ssp}: raised {e!r}", rep)
             continue
+        if np.asarray(J).shape != Q.shape:
+            ctx.issue("violation", "FusionART.join_channel_data:strict-fp:shape",
+                      f"skip {Ssp}: joined matrix has shape {np.asarray(J).shape}, the channels' widths {dims} give {Q.shape}", rep)
+            continue
         fillers = {}
         for name in ("join-filler", "zeros", "ones", "uniform", "training-value"):
             Qf = Q.copy()
